@@ -1,6 +1,8 @@
 package props
 
 import (
+	"os"
+	"os/exec"
 	"fmt"
 	"math"
 	"strconv"
@@ -30,10 +32,11 @@ func init() {
 			"textual forms (CONCAT, CHANGETYPE string) are asserted for strings, booleans and finite numbers (by their decimal text, no exponent)",
 			"base / algorithm / type names are given in lower case as the statement spells them; ENCODE/HASH of NULL is not asserted (NULL is not a scalar value)",
 		},
-		Floor:         append([]string{"elementat.big", "if.computed-branch", "if.computed-branch.null-condition", "text.decimal", "twins.literal-case", "twins.name-case", "if.guards-unpicked-branch", "daterange.numeric-bound", "daterange.as-array"}, c18Kinds...),
+		Floor:         append([]string{"elementat.big", "if.computed-branch", "if.computed-branch.null-condition", "text.decimal", "twins.literal-case", "twins.name-case", "if.guards-unpicked-branch", "daterange.numeric-bound", "daterange.as-array", "hash.process-history"}, c18Kinds...),
 		MinNontrivial: 100,
 		Phases: []fw.Phase{
 			{Name: "fn", N: func(t fw.Tier) int { return pick(t, 30000, 1000000) }, Run: c18Run},
+			{Name: "hash-process", N: func(t fw.Tier) int { return pick(t, 6, 60) }, Run: c18HashProcess},
 			{Name: "big", N: func(t fw.Tier) int { return pick(t, 4, 24) }, Run: c18Big, Batch: 2},
 			{Name: "twins", N: func(t fw.Tier) int { return pick(t, 3000, 60000) }, Run: c18Twins},
 		},
@@ -707,4 +710,61 @@ func c18Twins(c *fw.Case) {
 		return
 	}
 	c.Nontrivial(sql)
+}
+
+// HashProbe runs in a process of its own (vcheck hashprobe <order> <text>):
+// it calls built-ins over scalars in the given order and returns what HASH
+// gives for the text afterwards. HASH is a function of its argument: what the
+// process did before does not enter the digest.
+func HashProbe(order, text string) string {
+	doc := map[string]any{"t": []any{map[string]any{"v": text, "n": 12.5, "b": true}}}
+	warm := map[string]string{
+		"hash-first":   "",
+		"encode-first": "SELECT ENCODE(v, 'hex') AS a, ENCODE(n, 'base64') AS b FROM t",
+		"decode-first": "SELECT DECODE(ENCODE(v, 'base32'), 'base32') AS a, DECODE(ENCODE(b, 'hex'), 'hex') AS c FROM t",
+		"mixed-first":  "SELECT CONCAT(v, n) AS a, DECODE(ENCODE(n, 'hex'), 'hex') AS b, TO_UPPER(v) AS c FROM t",
+	}[order]
+	if warm != "" {
+		if o := Run(val.CopyMap(doc), warm); !o.OK() {
+			return fmt.Sprintf("warm-up failed: %v", o.Describe())
+		}
+	}
+	o := Run(val.CopyMap(doc), "SELECT HASH(v, 'sha1') AS s1, HASH(v, 'md5') AS m5, HASH(n, 'sha256') AS n2, HASH(b, 'sha512') AS b5, HASH('test data', 'sha1') AS lit FROM t")
+	if !o.OK() || len(o.Rows) != 1 {
+		return fmt.Sprintf("hash query failed: %v", o.Describe())
+	}
+	return val.Canon(o.Rows[0])
+}
+
+func c18HashProcess(c *fw.Case) {
+	bin := os.Getenv("VCHECK_BIN")
+	if bin == "" {
+		bin, _ = os.Executable()
+	}
+	text := gen.Pick(c.R, []string{"test data", "", "héllo", "a'b", "0"}) + gen.Pick(c.R, []string{"", "x", " 1"})
+	orders := []string{"hash-first", "encode-first", "decode-first", "mixed-first"}
+	outs := make([]string, len(orders))
+	for i, ord := range orders {
+		b, err := exec.Command(bin, "hashprobe", ord, text).CombinedOutput()
+		if err != nil {
+			c.Discard(fmt.Sprintf("probe process failed: %v: %s", err, short(string(b), 200)))
+			return
+		}
+		outs[i] = string(b)
+		c.Evals(1)
+	}
+	c.Feature("hash.process-history")
+	c.Sample(map[string]any{"text": text, "digests": short(outs[0], 300)})
+	for i := 1; i < len(orders); i++ {
+		if outs[i] != outs[0] {
+			c.Violate("hash-impure", fmt.Sprintf("HASH of the same values differs between a process that hashes first and one that ran %s: %s vs %s", orders[i], short(outs[0], 200), short(outs[i], 200)),
+				map[string]any{"text": text, "hash-first": outs[0], orders[i]: outs[i]})
+			return
+		}
+	}
+	if !strings.Contains(outs[0], "s1") {
+		c.Violate("error", "the probe printed no digests: "+short(outs[0], 200), map[string]any{"text": text})
+		return
+	}
+	c.Nontrivial(text)
 }
